@@ -32,6 +32,7 @@ void (*sched_on_deadlock)(const char *);
 void (*sched_on_idle)(void);
 void (*sched_on_switch)(const char *, int, int);
 void (*sched_on_point)(const char *);
+int sched_fail_next_create;
 
 int __real_pthread_mutex_lock(pthread_mutex_t *);
 int __real_pthread_mutex_unlock(pthread_mutex_t *);
@@ -242,6 +243,7 @@ int __wrap_pthread_create(pthread_t *t, const pthread_attr_t *attr, void *(*fn)(
 {
 	if (!sched_active || my_slot < 0) return __real_pthread_create(t, attr, fn, arg);
 	if (nthr >= SCHED_MAXT) return EAGAIN;
+	if (sched_fail_next_create) { sched_fail_next_create = 0; return EAGAIN; }     /* injected: the system is out of threads */
 	int s = nthr++;
 	memset(&thr[s], 0, sizeof thr[s]);
 	thr[s].fn = fn; thr[s].arg = arg; thr[s].st = S_NEW; sem_init(&thr[s].sem, 0, 0);
@@ -306,6 +308,7 @@ int __wrap_pthread_spin_lock(pthread_spinlock_t *l)
 int __wrap_pthread_spin_unlock(pthread_spinlock_t *l)
 {
 	if (!sched_active || my_slot < 0) return __real_pthread_spin_unlock(l);
+	if (sched_on_point) sched_on_point("spin_unlock-pre");      /* still inside the critical section (not a yield point) */
 	int r = __real_pthread_spin_unlock(l);
 	int li = lock_find((void *)l, 0);
 	if (li >= 0) locks[li].owner = -1;
